@@ -250,3 +250,11 @@ mut("c18-foreach-dynamic-rejected", "C18", "MUST", "ext/dynblock/expand_spec.go"
 mut("c20-exprlist-nil-when-empty", "C20", "MUST", "hclsyntax/expression.go",
     "\tret := make([]hcl.Expression, len(e.Exprs))\n\tfor i, expr := range e.Exprs {\n\t\tret[i] = expr\n\t}\n\treturn ret",
     "\tvar ret []hcl.Expression\n\tfor _, expr := range e.Exprs {\n\t\tret = append(ret, expr)\n\t}\n\treturn ret", "accessor.nil")
+
+# ---- C11 barekey (E-condeval) ---------------------------------------------------------------------
+mut("c11-barekey-no-valid", "C11", "MUST", "hclwrite/generate.go",
+    'if hclsyntax.ValidIdentifier(eKey.AsString()) && eKey.AsString() != "for" {', 'if eKey.AsString() != "for" {', "barekey")
+mut("c11-barekey-for-bare", "C11", "MUST", "hclwrite/generate.go",
+    'if hclsyntax.ValidIdentifier(eKey.AsString()) && eKey.AsString() != "for" {', 'if hclsyntax.ValidIdentifier(eKey.AsString()) {', "barekey")
+mut("c11-barekey-keep-nested", "C11", "KEEP", "hclwrite/generate.go",
+    'if hclsyntax.ValidIdentifier(eKey.AsString()) && eKey.AsString() != "for" {', 'if k := eKey.AsString(); !(k == "for" || !hclsyntax.ValidIdentifier(k)) {', "")
